@@ -126,6 +126,7 @@ type c20Line struct {
 	Fresh bool     `json:"fresh"`
 	O     c20Obs   `json:"o"`
 	// not used by the spec:
+	Mode string `json:"mode,omitempty"` // "burst": the request was sent many times concurrently
 	Note string `json:"note,omitempty"`
 	Site string `json:"site,omitempty"` // crash: first repository frame / panic kind
 }
@@ -146,9 +147,80 @@ type c20Worker struct {
 	// index of the last line, to attribute a late crash to it
 	restarts int
 	dead     bool
+	fuSeq    int
 }
 
 var c20StartNs int64
+
+// the follow-up program of ApiGrammar (FollowUps) and the endpoints it applies to (Stores)
+type c20FollowUp struct {
+	Name   string     `json:"name"`
+	M      string     `json:"m"`
+	Target string     `json:"target"`
+	Q      string     `json:"q"`
+	H      [][]string `json:"h"`
+	Body   string     `json:"body"`
+}
+
+var (
+	c20FollowUps []c20FollowUp
+	c20Stores    = map[string]bool{}
+	c20FUCount   int64
+)
+
+// followUp runs the follow-up program on the bucket (and key) an accepted storing request
+// named; it returns the name of the request during which the gateway died or stopped
+// answering ("" if it is still serving).
+func (w *c20Worker) followUp(ep *c20Endpoint) string {
+	if len(ep.P) == 0 || ep.P[0].K != "bucket" {
+		return ""
+	}
+	bucket := w.fx.subst(ep.P[0].Ok, nil)
+	key := ""
+	if len(ep.P) > 1 {
+		key = w.fx.subst(ep.P[1].Ok, nil)
+	}
+	if bucket == c20NewBucket || bucket == "" {
+		return ""
+	}
+	w.fuSeq++
+	fuNew, fuNew2 := fmt.Sprintf("c20-fu-%d", w.fuSeq), fmt.Sprintf("c20-fu-%d-copy", w.fuSeq)
+	rep := strings.NewReplacer("$FUBUCKET", bucket, "$FUNEW2", fuNew2, "$FUNEW", fuNew)
+	for _, fu := range c20FollowUps {
+		path := "/" + bucket
+		switch fu.Target {
+		case "new":
+			path += "/" + fuNew
+		case "new2":
+			path += "/" + fuNew2
+		case "key":
+			if key == "" {
+				continue
+			}
+			path += "/" + s3c.EncPath(key)
+		}
+		rq := s3c.Req{Method: fu.M, Path: path, RawQuery: fu.Q, Timeout: c20Timeout}
+		for _, h := range fu.H {
+			if len(h) == 2 {
+				rq.Headers = append(rq.Headers, s3c.KV{K: h[0], V: rep.Replace(h[1])})
+			}
+		}
+		if fu.Body != "" {
+			rq.Body = []byte(rep.Replace(fu.Body))
+			if fu.M == "POST" {
+				rq.Headers = append(rq.Headers, s3c.KV{K: "Content-MD5", V: s3c.MD5B64(rq.Body)})
+			}
+		}
+		atomic.AddInt64(&c20FUCount, 1)
+		r := w.fx.root.Do(rq)
+		if r.Err != nil || r.BodyErr != nil {
+			if w.env.GW.Wait(500*time.Millisecond) || !w.env.GW.Alive() || !w.probe() {
+				return fu.Name
+			}
+		}
+	}
+	return ""
+}
 
 func (w *c20Worker) start() error {
 	t0 := time.Now()
@@ -430,6 +502,22 @@ func (w *c20Worker) run(tab *c20Table, v c20Vec) {
 		}
 		line.Note += " (observed on a fresh gateway after a slow first attempt)"
 	}
+	if o.Alive && !o.Panic && o.Health && o.Replied && o.Status >= 200 && o.Status < 300 && c20Stores[tab.Ep.Name] {
+		// accepted: what it stored is used by the follow-up program (ApiGrammar!FollowUps)
+		if at := w.followUp(&tab.Ep); at != "" {
+			o.Alive = g.Alive()
+			o.Health = false
+			o.Panic = w.panicText()
+			line.Note += " during follow-up " + at + " after the accepted request: " + w.panicSite()
+			es := g.Stderr()
+			if len(es) > w.errLen {
+				es = es[w.errLen:]
+			}
+			if first, fn := c20PanicSite(es); fn != "" {
+				line.Site = fn + "/" + c20PanicKind(first)
+			}
+		}
+	}
 	line.O = o
 	w.lines = append(w.lines, line)
 	w.errLen = len(g.Stderr())
@@ -460,6 +548,95 @@ func (w *c20Worker) run(tab *c20Table, v c20Vec) {
 				w.dead = true
 			}
 		}
+	}
+}
+
+// burst sends one vector n x rounds times concurrently and records one line: the reply is
+// the first complete one, the time the longest, the server's state the one after the burst.
+func (w *c20Worker) burst(tab *c20Table, v c20Vec, n, rounds int) {
+	if w.env == nil || !w.env.GW.Alive() || w.dead {
+		w.dead = false
+		if err := w.start(); err != nil {
+			w.c.Inconclusive("worker %d: restart: %v", w.id, err)
+			w.dead = true
+			return
+		}
+	}
+	devs := make([]c20Dev, len(v.D))
+	for i, di := range v.D {
+		devs[i] = tab.Devs[di]
+	}
+	g := w.env.GW
+	line := c20Line{Ep: tab.Ep.Name, Devs: devs, Cred: v.Cred, Cfg: w.cfg, Fresh: w.fresh, Mode: "burst"}
+	w.fresh = false
+	raw, method, _, err := c20Render(&tab.Ep, devs, v.Cred, w.fx, g.Addr)
+	if err != nil {
+		w.c.Inconclusive("render %s %v: %v", tab.Ep.Name, devs, err)
+		return
+	}
+	resps := make([]*s3c.Resp, n*rounds)
+	var wg sync.WaitGroup
+	for i := 0; i < n; i++ {
+		wg.Add(1)
+		go func(i int) {
+			defer wg.Done()
+			for r := 0; r < rounds; r++ {
+				resps[i*rounds+r] = s3c.SendRaw(g.Addr, raw, method, c20Timeout)
+			}
+		}(i)
+	}
+	wg.Wait()
+	var resp *s3c.Resp
+	var maxMs int64
+	for _, r := range resps {
+		if r == nil {
+			continue
+		}
+		if ms := r.Latency.Milliseconds(); ms > maxMs {
+			maxMs = ms
+		}
+		if resp == nil || ((resp.Err != nil || resp.BodyErr != nil) && r.Err == nil && r.BodyErr == nil) {
+			resp = r
+		}
+	}
+	o := c20Obs{Ms: maxMs}
+	o.Alive = g.Alive()
+	if o.Alive {
+		o.Health = w.probe()
+		if !o.Health {
+			g.Wait(time.Second)
+		}
+		o.Alive = g.Alive()
+	}
+	o.Panic = w.panicText()
+	o.Replied = resp != nil && resp.Err == nil && resp.BodyErr == nil
+	if o.Replied {
+		o.Status = resp.Status
+		o.Body = c20BodyClass(method, resp)
+	} else {
+		o.Body = "empty"
+		if o.Alive && !o.Panic && o.Health {
+			// no complete reply to any of the concurrent copies, but the server serves: a
+			// connection-level loss under the burst says nothing about the request
+			return
+		}
+	}
+	if !o.Alive || o.Panic {
+		line.Note += " " + w.panicSite()
+		es := g.Stderr()
+		if len(es) > w.errLen {
+			es = es[w.errLen:]
+		}
+		if first, fn := c20PanicSite(es); fn != "" {
+			line.Site = fn + "/" + c20PanicKind(first)
+		}
+	}
+	line.O = o
+	w.lines = append(w.lines, line)
+	w.errLen = len(g.Stderr())
+	if !o.Alive || o.Panic || !o.Health {
+		w.env.Close()
+		w.dead = true
 	}
 }
 
@@ -496,7 +673,7 @@ func c20BodyClass(method string, r *s3c.Resp) string {
 // ---- driver
 
 func C20(c *core.Ctx, replay string) {
-	c.Rule = "TLC enumerates the deviation space of spec/ApiGrammar.tla (every endpoint x every slot x every value class; thorough: every combinable pair on two slots) x credential; every vector is rendered generically, signed and sent to a gateway subprocess; the observation is one trace line judged by TLC (ApiGrammarTrace: AlwaysAnswers). Non-trivial: a vector the gateway answered with something other than a signature / access error (the deviant value reached a handler)."
+	c.Rule = "TLC enumerates the deviation space of spec/ApiGrammar.tla (every endpoint x every slot x every value class; thorough: every combinable pair on two slots) x credential; every vector is rendered generically, signed and sent to a gateway subprocess; after a storing request that was accepted (2xx) the follow-up program of the specification (25 ordinary requests on the bucket and key it named) runs before the server's health is recorded; the observation is one trace line judged by TLC (ApiGrammarTrace: AlwaysAnswers). Non-trivial: a vector the gateway answered with something other than a signature / access error (the deviant value reached a handler)."
 	c.Assumptions = []string{
 		"every request is a complete HTTP/1.1 message (Content-Length equals the bytes sent); deviations live inside it",
 		"replies produced by the HTTP library itself for input it refuses to parse (400/431 with a text body before any gateway code runs) are judged like every other reply",
@@ -518,6 +695,26 @@ func C20(c *core.Ctx, replay string) {
 	tl, err := res.ReadNDJSON("endpoints.ndjson")
 	if err != nil {
 		c.Inconclusive("endpoint table: %v", err)
+		return
+	}
+	c20FollowUps, c20Stores = nil, map[string]bool{}
+	if fl, err := res.ReadNDJSON("followups.ndjson"); err == nil {
+		for _, x := range fl {
+			var fu c20FollowUp
+			if json.Unmarshal(x, &fu) == nil {
+				c20FollowUps = append(c20FollowUps, fu)
+			}
+		}
+	}
+	if sl, err := res.ReadNDJSON("stores.ndjson"); err == nil {
+		for _, x := range sl {
+			var n string
+			json.Unmarshal(x, &n)
+			c20Stores[n] = true
+		}
+	}
+	if len(c20FollowUps) == 0 || len(c20Stores) == 0 {
+		c.Inconclusive("follow-up program not emitted (%d requests, %d endpoints)", len(c20FollowUps), len(c20Stores))
 		return
 	}
 	var creds []string
@@ -660,6 +857,7 @@ func C20(c *core.Ctx, replay string) {
 			Devs []c20Dev `json:"devs"`
 			Cred string   `json:"cred"`
 			Cfg  string   `json:"cfg"`
+			Mode string   `json:"mode"`
 		}
 		if err := core.LoadReplayCase(replay, &rl); err != nil {
 			c.Inconclusive("replay: %v", err)
@@ -685,7 +883,16 @@ func C20(c *core.Ctx, replay string) {
 			v.D = append(v.D, found)
 		}
 		c.Exhaustive = false
-		runJobs([]job{{v, rl.Cfg}}, 1, time.Minute)
+		if rl.Mode == "burst" {
+			w := &c20Worker{c: c, id: 100, cfg: "plain", hook: hook}
+			for i := 0; i < 5 && len(w.lines) < 5 && !w.dead; i++ {
+				w.burst(table[v.E], v, 16, 6)
+			}
+			allLines = append(allLines, w.lines...)
+			w.close()
+		} else {
+			runJobs([]job{{v, rl.Cfg}}, 1, time.Minute)
+		}
 		c20Judge(c, allLines, nil)
 		return
 	}
@@ -723,7 +930,46 @@ func C20(c *core.Ctx, replay string) {
 	c.Logf("phase 1 done: %d cases, %d lines", n1, len(allLines))
 	crashers := c20Judge(c, allLines, nil)
 	c.Extra["cases_single"] = n1
+	c.Extra["follow_up_requests"] = int(atomic.LoadInt64(&c20FUCount))
 	c20SelfTest(c, allLines)
+
+	// ---- phase 1b: bursts.  Every vector that deviates an authentication field (and the
+	// two plain credentials on a few endpoints) is sent many times at once: what a request
+	// leaves in shared in-memory state (caches of accounts, of unknown keys, of signing keys)
+	// is read and written by its concurrent copies
+	{
+		allLines = nil
+		var bv []c20Vec
+		for _, v := range singles {
+			if d := table[v.E].Devs[v.D[0]]; d.S == "a" && !c20FailsAlone(crashers, table[v.E].Ep.Name, d) && v.Cred == "valid" {
+				bv = append(bv, v)
+			}
+		}
+		c.Rng.Shuffle(len(bv), func(i, j int) { bv[i], bv[j] = bv[j], bv[i] })
+		nw := 2
+		var wg sync.WaitGroup
+		var mu sync.Mutex
+		nb := 0
+		for k := 0; k < nw; k++ {
+			wg.Add(1)
+			go func(k int) {
+				defer wg.Done()
+				w := &c20Worker{c: c, id: 100 + k, cfg: "plain", hook: hook}
+				defer w.close()
+				for i := k; i < len(bv); i += nw {
+					w.burst(table[bv[i].E], bv[i], 16, c.Pick(3, 6))
+				}
+				mu.Lock()
+				allLines = append(allLines, w.lines...)
+				nb += len(w.lines)
+				mu.Unlock()
+			}(k)
+		}
+		wg.Wait()
+		c.Extra["burst_vectors"] = nb
+		c.Logf("phase 1b done: %d authentication-deviation vectors sent as bursts of 16 concurrent copies", nb)
+		c20Judge(c, allLines, crashers)
+	}
 
 	// ---- phase 2 (thorough): pairs; a pair containing a deviation that already
 	// violates the property alone is masked by it and is not executed
@@ -829,7 +1075,7 @@ func c20Judge(c *core.Ctx, lines []c20Line, known map[string]bool) map[string]bo
 				}
 			}
 			fp, detail := c20Fingerprint(l, class, known)
-			c.Violation(fp, detail, map[string]any{"ep": l.Ep, "devs": l.Devs, "cred": l.Cred, "cfg": l.Cfg})
+			c.Violation(fp, detail, map[string]any{"ep": l.Ep, "devs": l.Devs, "cred": l.Cred, "cfg": l.Cfg, "mode": l.Mode})
 		}
 	}
 	if len(c.Samples) < 6 {
